@@ -251,6 +251,87 @@ pub fn fault_status(script: &str, prog: &str, words: &[&[u8]], index: usize, bef
     None
 }
 
+// ------------------------------------------------------------------------------------------------ output scripts (C16)
+/// One rule of an output script `~<rule>+<rule>…` (third part of the injection field, after `@<flavour>`):
+/// `<kind>.<selector>.<stream><pattern><shift>.<size>` — the invocations selected by kind × selector (as in `FaultRule`)
+/// print exactly `<size>` bytes (`gen_output`) on `<stream>` (`o` stdout, `e` stderr, `b` both) instead of the texts of the
+/// flavour, whether they then succeed or fail (that is decided by the fault script / `z:k` alone).
+/// pattern: `a` ASCII lines, `2` two-byte characters (é), `3` three-byte characters (─ ✓ │), `4` four-byte characters (emoji),
+/// `m` a mix of 1/2/3/4-byte characters, `i` bytes that are not UTF-8; shift 0..3 = that many ASCII bytes in front, so that
+/// the multi-byte characters take every alignment relative to any fixed byte offset.
+#[derive(Clone, Debug)]
+pub struct OutRule { pub kind: String, pub sel: FaultSel, pub stream: char, pub pat: char, pub shift: usize, pub size: usize }
+pub const OUT_PATTERNS: [char; 6] = ['a', '2', '3', '4', 'm', 'i'];
+/// sizes above this are refused (`bad-op`)
+pub const OUT_MAX: usize = 4 << 20;
+
+pub fn parse_out_rules(s: &str) -> Option<Vec<OutRule>> {
+    s.split('+').map(|r| {
+        let p: Vec<&str> = r.split('.').collect();
+        if p.len() != 4 || !FAULT_KINDS.contains(&p[0]) { return None; }
+        let sel = parse_fault_rules(&format!("{}.{}", p[0], p[1]))?.pop()?.sel;
+        let sp: Vec<char> = p[2].chars().collect();
+        if sp.len() != 3 || !['o', 'e', 'b'].contains(&sp[0]) || !OUT_PATTERNS.contains(&sp[1]) || !('0'..='3').contains(&sp[2]) { return None; }
+        if p[3].is_empty() || p[3].len() > 7 || !p[3].bytes().all(|b| b.is_ascii_digit()) || (p[3].len() > 1 && p[3].starts_with('0')) { return None; }
+        let size: usize = p[3].parse().ok()?;
+        if size > OUT_MAX { return None; }
+        Some(OutRule { kind: p[0].to_string(), sel, stream: sp[0], pat: sp[1], shift: sp[2] as usize - '0' as usize, size })
+    }).collect()
+}
+
+/// Exactly `size` bytes. `shift` bytes `x`, then the pattern's units for as long as a whole unit fits, then `.` up to the size —
+/// so every pattern but `i` is valid UTF-8 whatever the size (a lossy decoding keeps its length). A line feed ends every line of
+/// 20 units; `3`/`m` look like the output of a test runner (box drawing, check marks).
+pub fn gen_output(pat: char, shift: usize, size: usize) -> Vec<u8> {
+    let units: Vec<&[u8]> = match pat {
+        'a' => vec![b"t", b"e", b"s", b"t", b" ", b"o", b"k", b" "],
+        '2' => vec!["é".as_bytes(), "ü".as_bytes(), "ß".as_bytes()],
+        '3' => vec!["│".as_bytes(), "─".as_bytes(), "✓".as_bytes(), "─".as_bytes(), "✗".as_bytes(), "─".as_bytes()],
+        '4' => vec!["🎉".as_bytes(), "🚀".as_bytes(), "😀".as_bytes()],
+        'm' => vec![b"a", "é".as_bytes(), "✓".as_bytes(), "🎉".as_bytes(), b" ", "─".as_bytes(), "─".as_bytes(), "😀".as_bytes(), "ü".as_bytes()],
+        // lone continuation byte, bytes that never occur in UTF-8, truncated 2/3/4-byte sequences, an overlong form, a surrogate
+        _ => vec![b"\x80", b"\xff", b"\xfe", b"\xc3", b"x", b"\xe2\x94", b"\xf0\x9f\x8e", b"\xc0\xaf", b"\xed\xa0\x80", b"ok"],
+    };
+    let mut out = Vec::with_capacity(size);
+    while out.len() < shift.min(size) { out.push(b'x'); }
+    let (mut i, mut on_line) = (0usize, 0usize);
+    loop {
+        let u: &[u8] = if on_line == 20 { b"\n" } else { units[i % units.len()] };
+        if out.len() + u.len() > size { break; }
+        out.extend_from_slice(u);
+        if on_line == 20 { on_line = 0; } else { on_line += 1; i += 1; }
+    }
+    while out.len() < size { out.push(b'.'); }
+    out
+}
+
+/// the `--name`s of the `docker run`s of the log so far, this invocation included when it is one
+fn container_names(prog: &str, words: &[&[u8]], before: &str) -> Vec<Vec<u8>> {
+    let mut names: Vec<Vec<u8>> = vec![];
+    let name_of = |ws: &[Vec<u8>]| ws.iter().position(|w| w == b"--name").and_then(|i| ws.get(i + 1).cloned()).unwrap_or_default();
+    for l in before.lines() {
+        let mut it = l.split(' ');
+        if it.next() != Some("docker") { continue; }
+        let ws: Vec<Vec<u8>> = it.map(|w| unhex(w.strip_prefix('h').unwrap_or("")).unwrap_or_default()).collect();
+        if ws.first().map(|w| &w[..]) == Some(b"run") { names.push(name_of(&ws)); }
+    }
+    if prog == "docker" && words.first().copied() == Some(&b"run"[..]) { names.push(name_of(&words.iter().map(|w| w.to_vec()).collect::<Vec<_>>())); }
+    names
+}
+
+/// The first rule of the output script that selects the invocation `prog words…` about to become line `index` (1-based) of the
+/// stand-in log (selection exactly as in `fault_status`). `None`: the invocation prints what its flavour says.
+pub fn out_rule_for(script: &str, prog: &str, words: &[&[u8]], index: usize, before: &str) -> Option<OutRule> {
+    let rules = parse_out_rules(script)?;
+    let names = container_names(prog, words, before);
+    rules.into_iter().find(|r| fault_kind_selects(&r.kind, prog, words) && match r.sel {
+        FaultSel::All => true,
+        FaultSel::At(k) => index == k,
+        FaultSel::From(k) => index >= k,
+        FaultSel::Ctr(j) => prog == "docker" && names.get(j - 1).map_or(false, |n| !n.is_empty() && words.iter().any(|w| *w == &n[..])),
+    })
+}
+
 // ------------------------------------------------------------------------------------------------ the case runner
 /// files under `root` as `relpath-hex:content-hex`, sorted by path bytes, joined by `+` (`empty` for none)
 pub fn file_snapshot(root: &Path) -> String {
@@ -331,7 +412,10 @@ pub fn run_scenario_case(fields: &[String]) -> String {
     let ch = chain(&tree);
     if ch.iter().any(|i| *i >= bcfgs.len()) { return "bad-op".into(); }
     // injection field: `<base>[@<flavour>]`; base = `-` | `z:<k>[:<status>|:sig]` | `nfp:<j>` | `nfd:<j>` | `f:<fault script>` (see `FaultRule`)
-    let (inj, flavour) = match fields[4].split_once('@') { Some((a, f)) => (a, f), None => (fields[4].as_str(), "0") };
+    // … optionally followed by `~<output script>` (see `OutRule`): what selected invocations print
+    let (inj_field, outputs) = match fields[4].split_once('~') { Some((a, o)) => (a, Some(o)), None => (fields[4].as_str(), None) };
+    if outputs.map_or(false, |o| parse_out_rules(o).is_none()) { return "bad-op".into(); }
+    let (inj, flavour) = match inj_field.split_once('@') { Some((a, f)) => (a, f), None => (inj_field, "0") };
     if flavour.parse::<u32>().map_or(true, |f| f > 3) { return "bad-op".into(); }
     let (mut fail_at, mut gone): (Option<(usize, String)>, Option<(&str, usize)>) = (None, None);
     let mut faults: Option<&str> = None;
@@ -373,6 +457,7 @@ pub fn run_scenario_case(fields: &[String]) -> String {
     cmd.env("STANDIN_FLAVOUR", flavour);
     if let Some((p, n)) = gone { cmd.env("STANDIN_GONE", format!("{p}:{n}")); }
     if let Some(script) = faults { cmd.env("STANDIN_FAULTS", script); }
+    if let Some(o) = outputs { cmd.env("STANDIN_OUTPUTS", o); }
     let mut child = cmd.spawn().unwrap();
     let start = std::time::Instant::now();
     let status = loop {
